@@ -471,5 +471,23 @@ def r13_8(ctx):
     return r
 
 
+def r13_9(ctx):
+    """window bookkeeping is driven by SACKs, and every decision about a SACK (is it newer? stale? a duplicate?)
+    compares TSNs. Comparing the SACK's cumulative ack (our TSN space) with the receive point (the peer's space)
+    gives a coin flip fixed per association: in half of them every advertised window is then ignored and the
+    sender keeps injecting into a closed window. Same units rule as R01.7, claimed here for the window clause."""
+    r = RuleResult("R13.9", "K6/units", "SACK handling never relates own-space and peer-space TSNs (window updates cannot be gated on a meaningless comparison)")
+    from rules import c01
+    rr = c01.r01_7(ctx)
+    r.scope = rr.scope
+    r.obligations, r.discharged = rr.obligations, rr.discharged
+    r.sites, r.floor = rr.sites, rr.floor
+    r.samples = rr.samples
+    for v in rr.violations:
+        r.violate(v.fn, v.site, v.where, v.msg, v.path)
+        r.obligations -= 1
+    return r
+
+
 def run(ctx):
-    return [r13_1(ctx), r13_2(ctx), r13_3(ctx), r13_4(ctx), r13_5(ctx), r13_6(ctx), r13_7(ctx), r13_8(ctx)]
+    return [r13_1(ctx), r13_2(ctx), r13_3(ctx), r13_4(ctx), r13_5(ctx), r13_6(ctx), r13_7(ctx), r13_8(ctx), r13_9(ctx)]
